@@ -112,6 +112,13 @@ def itemOk (st : St) (id : Nat) : Bool :=
   | some it => subOwned st it.sub
   | none => false
 
+/-- one id of SetMonitoringMode / DeleteMonitoredItems: an unknown id is harmless iff the lookup is
+    checked first; a known one needs a caller session and an owner session -/
+def itemSafe (st : St) (t : Tok) (unknownContinues : Bool) (id : Nat) : Bool :=
+  match findItem st id with
+  | none => unknownContinues
+  | some _ => sessionKnown st t && itemOk st id
+
 /-- decidable guard of the partial theorem: the request shapes for which no call site of the model
     panics -/
 def safe (st : St) (t : Tok) : Req → Bool
@@ -129,8 +136,8 @@ def safe (st : St) (t : Tok) : Req → Bool
     | .huge => true
   | .deleteSubscriptions ids => ids.all fun id => (findSub st id).isNone || (sessionKnown st t && subOwned st id)
   | .createMonitoredItems sub _ => (findSub st sub).isNone || (sessionKnown st t && subOwned st sub)
-  | .setMonitoringMode ids => ids.all fun id => sessionKnown st t && itemOk st id
-  | .deleteMonitoredItems ids => ids.all fun id => sessionKnown st t && itemOk st id
+  | .setMonitoringMode ids => ids.all fun id => itemSafe st t Gen.SrvSession.setModeUnknownContinues id
+  | .deleteMonitoredItems ids => ids.all fun id => itemSafe st t Gen.SrvSession.delItemsUnknownContinues id
   | _ => true
 
 /-- finding signature of a crashing request (decidable on the case) -/
